@@ -53,7 +53,7 @@ structure Representable (ok : Bytes → Option Bool) (d : Definition) : Prop whe
   small : ((DefCodec.definition ok).enc d).length < 2 ^ 64
 
 /-- Canonical order: what `to_definition` produces — BPE in any order without duplicate byte strings,
-    Unigram strictly increasing by (score, id) without NaN, WordPiece strictly increasing by
+    Unigram strictly increasing by (score, id, bytes) without NaN, WordPiece strictly increasing by
     (id, bytes), specials strictly increasing in their order. -/
 def strictlySorted (le : α → α → Bool) (l : List α) : Prop :=
   List.Pairwise (fun a b => le a b = true ∧ le b a = false) l
@@ -63,8 +63,7 @@ structure Canonical (d : Definition) : Prop where
   model : match d.model with
     | .bytePair vocab _ => List.Pairwise (fun a b : Id × Bytes => a.2 ≠ b.2) vocab
     | .unigram vocab scores => vocab.length = scores.length ∧ (∀ s ∈ scores, f32IsNaN s = false) ∧
-        strictlySorted (fun x y : (Id × Bytes) × UInt32 => f32Key x.2 < f32Key y.2 || (f32Key x.2 == f32Key y.2 && x.1.1 ≤ y.1.1))
-          (vocab.zip scores)
+        strictlySorted uniExportLe (vocab.zip scores)
     | .wordPiece vocab _ => strictlySorted (fun x y : Id × Bytes => x.1 < y.1 || (x.1 == y.1 && bytesLe x.2 y.2)) vocab
 
 end Kitoken.Spec
